@@ -867,7 +867,7 @@ func runC22(c *core.Ctx) error {
 	go func() {
 		defer wg.Done()
 		for _, r := range runs {
-			_, err := c.TLC(core.TLCOpts{Spec: "AstNode", CfgName: r.name, Workers: c.Pick(4, 5), Timeout: 14 * time.Minute,
+			_, err := c.TLC(core.TLCOpts{Spec: "AstNode", CfgName: r.name, Workers: c.Pick(4, 5), Timeout: 40 * time.Minute,
 				Cfg:    c22CfgX(r.nodes, r.depth, r.l, r.rich, r.pos, nil, "none", true, "SizeOK "+c22Invs, false, r.stepwise),
 				OnLine: handle})
 			if err != nil {
@@ -879,7 +879,7 @@ func runC22(c *core.Ctx) error {
 	// (R) deep mixed trees, rebuilt by the stack machine
 	go func() {
 		defer wg.Done()
-		_, errs[1] = c.TLC(core.TLCOpts{Spec: "AstNode", CfgName: "trees-sim", Workers: 3, Timeout: 14 * time.Minute,
+		_, errs[1] = c.TLC(core.TLCOpts{Spec: "AstNode", CfgName: "trees-sim", Workers: 3, Timeout: 40 * time.Minute,
 			Cfg:      c22CfgS(c.Pick(10, 16), 6, 3, true, "{0, 1, 2}", nil, "none", true, "SlotTypesOK RebuildIdentity Emit", true),
 			Simulate: true, SimNum: c.Pick(20, 200), SimDepth: 800, Seed: c.Seed, OnLine: handle})
 	}()
